@@ -58,3 +58,21 @@ func VerifH_SmokeFmt() {
 	f := "<" + string([]byte{c, d}) + ">"
 	vrt.Observe("symfmt", fmt.Sprintf(f, op), fmt.Sprintf(f), fmt.Sprintf("%x|%X|%d|%5s|%q|", op, op, op, op, op), fmt.Errorf(f+"%s", op, 7).Error())
 }
+
+// VerifH_SmokeMaps
+func VerifH_SmokeMaps() {
+	c := vrt.Byte("c")
+	vrt.Assume(vrt.Or(c == 'a', c == 'k'))
+	m := map[string]int{"a": 1, "b": 2}
+	m2 := maps.Clone(m)
+	m2[string([]byte{c})] = 9
+	delete(m2, "b")
+	var nilm map[string]int
+	vrt.Observe("maps", len(m), len(m2), m["a"], m2["a"], maps.Clone(nilm) == nil, maps.Equal(m, m2), fmt.Sprint(slices.Sorted(maps.Values(m2))))
+	s := []int{1, 2, 3}
+	s2 := slices.Clone(s)
+	s2[0] = 7
+	s3 := slices.Insert(s, 1, 9)
+	s4 := slices.Delete(slices.Clone(s3), 0, 1)
+	vrt.Observe("sliceops", s[0], s2[0], fmt.Sprint(s3), fmt.Sprint(s4), slices.Index(s3, 9), fmt.Sprint(slices.Compact([]int{1, 1, 2, 2, 1})))
+}
